@@ -14,7 +14,7 @@ func checkC32(r *Run) {
 	r.NotDec = "races outside the ownership discipline (e.g. on Connection.Buffer), liveness under real network stalls"
 	owned := []string{"pool", "addresses", "defaultOutgoingConnections", "outgoingConnections", "incomingConnections", "connID"}
 	res := r.P.strandContext("daemon/gnet", "ConnectionPool", owned, "daemon/gnet.ConnectionPool.strand", map[string]string{
-		"daemon/gnet.NewConnectionPool": "constructor: the pool is not shared yet",
+		"daemon/gnet.NewConnectionPool":       "constructor: the pool is not shared yet",
 		"daemon/gnet.ConnectionPool.Shutdown": "touches the maps only after <-pool.strandDone (checked below)",
 	})
 	sort.Slice(res, func(i, j int) bool { return FnName(res[i].Fn) < FnName(res[j].Fn) })
